@@ -4,6 +4,9 @@ export GOFLAGS=-mod=mod GOPROXY=off GOSUMDB=off GOTOOLCHAIN=local
 cd /verif/harness || exit 1
 mkdir -p /verif/.cache/bin
 go vet ./... || exit 1
+# self-tests of the oracles themselves (RFC test vectors for SCRAM/PBKDF2, the RFC 2047 decoder against
+# Go's encoders, the address parser against net/mail, a conversation with the reference SMTP server)
+go test -count=1 ./mimeread ./refsasl ./refsmtp || exit 1
 go test -c -tags verif -o /verif/.cache/bin/setup.test ./props || exit 1
 rm -f /verif/.cache/bin/setup.test
 echo "setup ok"
